@@ -16,7 +16,7 @@ from . import toy
 from .common import facts, far, simp, tensor_of, term_of
 
 PID = "C08"
-LEVEL = "other"
+LEVEL = "model_checking"
 CLAIM = (
     "Bounded symbolic verification of the fit bookkeeping with the minimiser replaced by a non-deterministic stub. The real fit_scipy "
     "/ fit_newton_cg / fit_minuit_v2 run on the real VarsManager, Bound, Model and FCN classes around a likelihood whose per-event "
